@@ -2281,8 +2281,67 @@ func (r *flvRun) crossDecode(bs []*flvBuilt, wref *flvBuilt) {
 
 // ---------------------------------------------------------------- driver
 
+// flvNilElements: a nil element inside a repeated message field (reachable only through the generated API: a typed slice
+// handed to a setter, or written into the struct field of the open API -- protoreflect cannot store one) means an empty
+// message in every flavour: [x, nil, y] must encode exactly as [x, {}, y].
+func flvNilElements(c *Ctx) {
+	var mts []protoreflect.MessageType
+	protoregistry.GlobalTypes.RangeMessages(func(mt protoreflect.MessageType) bool { mts = append(mts, mt); return true })
+	sort.Slice(mts, func(i, j int) bool { return mts[i].Descriptor().FullName() < mts[j].Descriptor().FullName() })
+	for _, mt := range mts {
+		md := mt.Descriptor()
+		if md.IsMapEntry() {
+			continue
+		}
+		for i := 0; i < md.Fields().Len(); i++ {
+			fd := md.Fields().Get(i)
+			if !fd.IsList() || fd.Message() == nil {
+				continue
+			}
+			func() {
+				defer func() {
+					if r := recover(); r != nil {
+						c.Stat("nil_elem_skipped_panic")
+					}
+				}()
+				m1, m2 := mt.New(), mt.New()
+				l2 := m2.Mutable(fd).List()
+				for k := 0; k < 3; k++ {
+					l2.Append(l2.NewElement())
+				}
+				x, y := l2.NewElement().Message().Interface(), l2.NewElement().Message().Interface()
+				et := reflect.TypeOf(x)
+				sl := reflect.MakeSlice(reflect.SliceOf(et), 3, 3)
+				sl.Index(0).Set(reflect.ValueOf(x))
+				sl.Index(2).Set(reflect.ValueOf(y))
+				pv := reflect.ValueOf(m1.Interface())
+				name := strs.GoCamelCase(string(fd.Name()))
+				if fd.Kind() == protoreflect.GroupKind {
+					name = strs.GoCamelCase(string(fd.Message().Name()))
+				}
+				if set := pv.MethodByName("Set" + name); set.IsValid() && set.Type().NumIn() == 1 && set.Type().In(0) == sl.Type() {
+					set.Call([]reflect.Value{sl})
+				} else if f := pv.Elem().FieldByName(name); f.IsValid() && f.CanSet() && f.Type() == sl.Type() {
+					f.Set(sl)
+				} else {
+					c.Stat("nil_elem_no_typed_access")
+					return
+				}
+				c.Stat("nil_elem_" + presFlavour(mt))
+				o := proto.MarshalOptions{Deterministic: true, AllowPartial: true}
+				b1, e1 := o.Marshal(m1.Interface())
+				b2, e2 := o.Marshal(m2.Interface())
+				if e1 != nil || e2 != nil || !bytes.Equal(b1, b2) || o.Size(m1.Interface()) != len(b2) {
+					c.PropFail("C29", "a nil element of a repeated message field does not encode as an empty message", string(fd.FullName()), HexB(b1), HexB(b2))
+				}
+			}()
+		}
+	}
+}
+
 func famFlavors(c *Ctx) {
 	flvInitBuilders(c)
+	flvNilElements(c)
 	ts := flvDiscover(c)
 	if len(ts) == 0 {
 		c.PropFail("C29", "no message generated in all three API levels is linked")
